@@ -99,28 +99,30 @@ LEVal(q) == IF Len(q) = 1 THEN q[1].b
             ELSE IF Len(q) = 2 THEN q[1].b + 256 * q[2].b
             ELSE IF q[4].b >= 128 THEN HUGE          \* beyond 32 bit in TLC; longer than any script, read() takes the rest
             ELSE q[1].b + 256 * q[2].b + 65536 * q[3].b + 16777216 * q[4].b
+\* tr: the result rests on a truncation quirk (a reader that rejects truncated pushes would say "no parse" instead)
 ReadData(tok, r) ==
   IF tok < OP_PUSHDATA1
-  THEN LET x == Take(r, tok) IN [st |-> "ok", got |-> x.got, rest |-> x.rest]                 \* QuirkShortRead inside Take
+  THEN LET y == Take(r, tok) IN [st |-> "ok", got |-> y.got, rest |-> y.rest, tr |-> Size(y.got) < tok]      \* QuirkShortRead inside Take
   ELSE LET w == IF tok = OP_PUSHDATA1 THEN 1 ELSE IF tok = OP_PUSHDATA2 THEN 2 ELSE 4
            avail == Size(r)
-       IN IF avail = 0 THEN [st |-> "ok", got |-> <<>>, rest |-> <<>>]                        \* QuirkLengthAtEof
-          ELSE IF avail < w THEN [st |-> "struct_error", got |-> <<>>, rest |-> <<>>]         \* QuirkTruncatedLength
+       IN IF avail = 0 THEN [st |-> "ok", got |-> <<>>, rest |-> <<>>, tr |-> TRUE]                          \* QuirkLengthAtEof
+          ELSE IF avail < w THEN [st |-> "struct_error", got |-> <<>>, rest |-> <<>>, tr |-> TRUE]           \* QuirkTruncatedLength
           ELSE LET lf == Take(r, w) IN
-               IF ~Concrete(lf.got) THEN [st |-> "opaque", got |-> <<>>, rest |-> <<>>]
-               ELSE LET x == Take(lf.rest, LEVal(lf.got)) IN [st |-> "ok", got |-> x.got, rest |-> x.rest]
-RECURSIVE Tokens(_, _)
-Tokens(s, acc) ==
-  IF s = <<>> THEN [st |-> "ok", toks |-> acc]
+               IF ~Concrete(lf.got) THEN [st |-> "opaque", got |-> <<>>, rest |-> <<>>, tr |-> FALSE]
+               ELSE LET y == Take(lf.rest, LEVal(lf.got)) IN
+                    [st |-> "ok", got |-> y.got, rest |-> y.rest, tr |-> Size(y.got) < LEVal(lf.got)]        \* QuirkShortRead
+RECURSIVE Tokens(_, _, _)
+Tokens(s, acc, tr) ==
+  IF s = <<>> THEN [st |-> "ok", toks |-> acc, tr |-> tr]
   ELSE LET h == Head(s)  r == Tail(s) IN
-       IF h.b < 0 THEN [st |-> "opaque", toks |-> acc]            \* an opcode position inside uninterpreted payload: never in emitted cases (Aligned)
+       IF h.b < 0 THEN [st |-> "opaque", toks |-> acc, tr |-> tr]   \* an opcode position inside uninterpreted payload: never in emitted cases (Aligned)
        ELSE IF h.b >= 1 /\ h.b <= OP_PUSHDATA4
             THEN LET rd == ReadData(h.b, r) IN
-                 IF rd.st # "ok" THEN [st |-> rd.st, toks |-> acc]
-                 ELSE Tokens(rd.rest, Append(acc, Data(rd.got)))
-       ELSE IF h.b >= OP_1 /\ h.b <= OP_16 THEN Tokens(r, Append(acc, SInt(h.b - OP_1 + 1)))
-       ELSE Tokens(r, Append(acc, Op(h.b)))
-Tokenise(s) == Tokens(s, <<>>)
+                 IF rd.st # "ok" THEN [st |-> rd.st, toks |-> acc, tr |-> tr \/ rd.tr]
+                 ELSE Tokens(rd.rest, Append(acc, Data(rd.got)), tr \/ rd.tr)
+       ELSE IF h.b >= OP_1 /\ h.b <= OP_16 THEN Tokens(r, Append(acc, SInt(h.b - OP_1 + 1)), tr)
+       ELSE Tokens(r, Append(acc, Op(h.b)), tr)
+Tokenise(s) == Tokens(s, <<>>, FALSE)
 \* the bytes a token is written as when it is (re)encoded minimally
 TokBytes(tk) == IF tk.k = "op" THEN <<B(tk.v)>> ELSE IF tk.k = "int" THEN <<B(OP_1 + tk.v - 1)>> ELSE Push(tk.pl)
 Layout(toks) == Flat([i \in 1..Len(toks) |-> TokBytes(toks[i])])
@@ -217,11 +219,15 @@ Parse(ops, toks, ti, oi, bind) ==
 Match(t, toks) == Parse(t.ops, toks, 1, 1, [i \in 1..Len(toks) |-> ""])
 
 \* Script.parse: hint first, then the class's table; empty script without hint is "no_script"; an exception is "none"
-Cands(mode) == IF mode = "out" THEN OutTemplates ELSE IF mode = "in" THEN InTemplates ELSE <<TIMELOCK>> \o InTemplates
+\* modes: "out" OutputScript(source); "in" InputScript(source); "tl" InputScript with the time-lock template as hint (how
+\* redeem_time_lock_script_hash reads a script_source); "sub" the inner script of a PUSH_SUBSCRIPT, which the parser wraps in
+\* the BASE class Script (empty table): only the hint is tried
+Cands(mode) == IF mode = "out" THEN OutTemplates ELSE IF mode = "in" THEN InTemplates
+               ELSE IF mode = "tl" THEN <<TIMELOCK>> \o InTemplates ELSE <<TIMELOCK>>
 Matching(mode, toks) == {i \in 1..Len(Cands(mode)) : Match(Cands(mode)[i], toks).ok}
 Classify(mode, tz) ==
   IF tz.st # "ok" THEN [t |-> NONE, bind |-> <<>>, amb |-> {}]
-  ELSE IF tz.toks = <<>> /\ mode # "tl" THEN [t |-> NOSCRIPT, bind |-> <<>>, amb |-> {}]
+  ELSE IF tz.toks = <<>> /\ mode \in {"out", "in"} THEN [t |-> NOSCRIPT, bind |-> <<>>, amb |-> {}]
   ELSE LET ms == Matching(mode, tz.toks) IN
        IF ms = {} THEN [t |-> NONE, bind |-> [i \in 1..Len(tz.toks) |-> ""], amb |-> {}]
        ELSE LET t == Cands(mode)[MinOf(ms)] IN
@@ -323,25 +329,39 @@ FieldSym(op) == IF op.k = "op" THEN <<SymOfOp(op.v)>>
 Instance(t) == Flat([i \in 1..Len(t.ops) |-> FieldSym(t.ops[i])])
 Toks(syms) == [i \in 1..Len(syms) |-> SYM[syms[i]]]
 
-Insert(q, p, x) == SubSeq(q, 1, p - 1) \o <<x>> \o SubSeq(q, p, Len(q))
-Replace(q, p, x) == [q EXCEPT ![p] = x]
+Insert(q, p, y) == SubSeq(q, 1, p - 1) \o <<y>> \o SubSeq(q, p, Len(q))
+Replace(q, p, y) == [q EXCEPT ![p] = y]
 Delete(q, p) == SubSeq(q, 1, p - 1) \o SubSeq(q, p + 1, Len(q))
 Swap(q, p) == [q EXCEPT ![p] = q[p + 1], ![p + 1] = q[p]]
-Edits1(q, A) == {q} \cup {Insert(q, p, x) : p \in 1..(Len(q) + 1), x \in A} \cup {Replace(q, p, x) : p \in 1..Len(q), x \in A}
-                    \cup {Delete(q, p) : p \in 1..Len(q)} \cup {Swap(q, p) : p \in 1..(Len(q) - 1)}
-EditsN(q, A) == IF EDITS = 1 THEN Edits1(q, A) ELSE UNION {Edits1(u, A) : u \in Edits1(q, A)}
+\* one edit as a value, so that the neighbourhoods are enumerated by \E (no big sets); an edit that does not apply is the identity
+ED(t, p, y) == [t |-> t, p |-> p, y |-> y]
+EditOps(n, A) == {ED("id", 0, 0)} \cup {ED("ins", p, y) : p \in 1..(n + 1), y \in A} \cup {ED("sub", p, y) : p \in 1..n, y \in A}
+                   \cup {ED("del", p, 0) : p \in 1..n} \cup {ED("swap", p, 0) : p \in 1..(n - 1)}
+Ap(q, e) == IF e.t = "ins" /\ e.p <= Len(q) + 1 THEN Insert(q, e.p, e.y)
+            ELSE IF e.t = "sub" /\ e.p <= Len(q) THEN Replace(q, e.p, e.y)
+            ELSE IF e.t = "del" /\ e.p <= Len(q) THEN Delete(q, e.p)
+            ELSE IF e.t = "swap" /\ e.p < Len(q) THEN Swap(q, e.p)
+            ELSE q
+Edits1(q, A) == {Ap(q, e) : e \in EditOps(Len(q), A)}
 AllSeqs(A, n) == UNION {[1..k -> A] : k \in 0..n}
 
 ModeTemplates(mode) == IF mode = "out" THEN {OutTemplates[i] : i \in 1..Len(OutTemplates)}
                        ELSE IF mode = "in" THEN {InTemplates[i] : i \in 1..Len(InTemplates)} ELSE {TIMELOCK}
 ExtraInstances(mode) == IF mode = "out" THEN {<<7, 17>>} ELSE IF mode = "in" THEN {<<6, 17, 23>>, <<6, 20, 22>>} ELSE {}
+Instances(mode) == {Instance(t) : t \in ModeTemplates(mode)} \cup ExtraInstances(mode)
 Alpha(mode) == IF mode = "out" THEN (1..12) \cup (15..21)
                ELSE IF mode = "in" THEN {4, 6, 13, 15, 16, 17, 20, 22, 23}
                ELSE {1, 2, 3, 4, 6, 12, 14, 15, 16, 19, 24}
 ModeLen(mode) == IF mode = "tl" THEN MAXLEN - 1 ELSE MAXLEN
-SeqSet(mode) == AllSeqs(Alpha(mode), ModeLen(mode))
-                  \cup UNION {EditsN(q, 1..NSYM) : q \in {Instance(t) : t \in ModeTemplates(mode)} \cup ExtraInstances(mode)}
-SeqCases(mode) == {[kind |-> "seq", mode |-> mode, syms |-> q] : q \in {x \in SeqSet(mode) : InPart(SeqSum(x) + Len(x))}}
+SeqKey(q) == SeqSum(q) + Len(q)
+SeqCase(mode, q) == [kind |-> "seq", mode |-> mode, syms |-> q]
+\* (a) every sequence up to the length bound over the mode's alphabet
+SeqCasesAll(mode) == {SeqCase(mode, q) : q \in {y \in AllSeqs(Alpha(mode), ModeLen(mode)) : InPart(SeqKey(y))}}
+\* (b) every sequence within EDITS edits (over the WHOLE alphabet) of an instance of every template of the mode
+IsNeighbour(cc, mode) ==
+  \E q \in Instances(mode) : \E e1 \in EditOps(Len(q), 1..NSYM) :
+     \E e2 \in (IF EDITS = 1 THEN {ED("id", 0, 0)} ELSE EditOps(Len(q) + 1, 1..NSYM)) :
+        LET u == Ap(Ap(q, e1), e2) IN InPart(SeqKey(u)) /\ cc = SeqCase(mode, u)
 
 \* ---------------------------------------------------------------- case generation: concrete byte strings
 BYTEALPHA == {0, 1, 2, 3, 75, 76, 77, 78, 79, 80, 81, 96, 97, 106, 117, 118, 136, 169, 172, 181, 182, 255}
@@ -352,7 +372,7 @@ ByteInstance(t) == Concretise(Generate(t.ops, [i \in 1..Len(Fields(t.ops)) |-> V
 ByteInstances == {ByteInstance(OutTemplates[i]) : i \in 1..Len(OutTemplates)}
                    \cup {<<106, 1, 80>>, <<106, 76, 2, 80, 7>>, <<106, 77, 1, 0, 80>>, <<106, 78, 1, 0, 0, 0, 80>>}
 ByteSet == AllSeqs(BYTEALPHA, BYTELEN) \cup UNION {Edits1(q, BYTEALPHA) : q \in ByteInstances}
-ByteCases(mode) == {[kind |-> "bytes", mode |-> mode, bs |-> q] : q \in {x \in ByteSet : InPart(SeqSum(x) + Len(x))}}
+ByteCases(mode) == {[kind |-> "bytes", mode |-> mode, bs |-> q] : q \in {y \in ByteSet : InPart(SeqKey(y))}}
 
 \* ---------------------------------------------------------------- derived per-case results
 \* inner script of a bound PUSH_SUBSCRIPT (parsed on demand, with the sub-template as hint)
@@ -361,7 +381,7 @@ InnerOf(r, toks) ==
   LET at == BoundAt(toks, r.bind, "script") IN
   IF SubHint(r.t) # "timelock" \/ at = {} THEN [known |-> FALSE, name |-> "", vals |-> <<>>]
   ELSE LET tz == Tokenise(toks[MinOf(at)].pl)
-           ir == Classify("tl", tz) IN
+           ir == Classify("sub", tz) IN
        IF tz.st = "opaque" THEN [known |-> FALSE, name |-> "", vals |-> <<>>]
        ELSE [known |-> TRUE, name |-> ir.t.name,
              vals |-> [i \in 1..Len(ir.bind) |-> [f |-> ir.bind[i], pl |-> tz.toks[i].pl]]]
@@ -381,7 +401,7 @@ GivenVals(fs, vals) ==
 Parsed == c.kind \in {"gen", "seq", "bytes"}
 StreamOf(cc) == IF cc.kind = "gen" THEN GenLayout(cc) ELSE IF cc.kind = "seq" THEN Layout(Toks(cc.syms)) ELSE Bs(cc.bs)
 Compute(cc) ==
-  IF cc.kind \notin {"gen", "seq", "bytes"} THEN [tz |-> [st |-> "ok", toks |-> <<>>], r |-> [t |-> NONE, bind |-> <<>>, amb |-> {}], class |-> "", inner |-> <<>>]
+  IF cc.kind \notin {"gen", "seq", "bytes"} THEN [tz |-> [st |-> "ok", toks |-> <<>>, tr |-> FALSE], r |-> [t |-> NONE, bind |-> <<>>, amb |-> {}], class |-> "", inner |-> <<>>]
   ELSE LET tz == Tokenise(StreamOf(cc))
            r == Classify(cc.mode, tz)
        IN [tz |-> tz, r |-> r, class |-> ClassOf(r, tz.toks), inner |-> IF cc.mode = "in" THEN InnerOf(r, tz.toks) ELSE <<>>]
@@ -391,7 +411,8 @@ PushCases == {[kind |-> "push", n |-> n] : n \in {y \in PushLens : PART = 0}}
 TplCases == {[kind |-> "tpl", idx |-> i] : i \in {y \in 1..Len(AllTemplates) : PART = 0}}
 SymCases == {[kind |-> "sym", idx |-> i] : i \in {y \in 1..NSYM : PART = 0}}
 Init == /\ \/ c \in PushCases \/ c \in TplCases \/ c \in SymCases \/ c \in GenCases
-           \/ c \in SeqCases("out") \/ c \in SeqCases("in") \/ c \in SeqCases("tl")
+           \/ c \in SeqCasesAll("out") \/ c \in SeqCasesAll("in") \/ c \in SeqCasesAll("tl")
+           \/ IsNeighbour(c, "out") \/ IsNeighbour(c, "in") \/ IsNeighbour(c, "tl")
            \/ c \in ByteCases("out") \/ c \in ByteCases("in")
         /\ xr = Compute(c)
 Next == UNCHANGED vars
@@ -406,7 +427,7 @@ PushReadBack == c.kind = "push" =>
      /\ IF c.n = 0 THEN tz.toks[1] = Op(OP_0) ELSE tz.toks[1] = Data(Opaque(c.n, "x"))
 \* L2 generate then parse: same template, same values (outer and inner script), for every template in the claim
 GenRoundTrip == c.kind = "gen" =>
-   /\ xr.tz.st = "ok"
+   /\ xr.tz.st = "ok" /\ ~xr.tz.tr
    /\ xr.r.t.name = c.tpl
    /\ BoundVals(xr.r, xr.tz.toks) = GivenVals(Fields(ByName(c.tpl).ops), c.vals)
    /\ c.tpl = "script_hash+timelock" =>
@@ -417,7 +438,7 @@ GenHeightExact == (c.kind = "gen" /\ c.tpl = "timelock") =>
    LET at == BoundAt(xr.tz.toks, xr.r.bind, "height") IN
      at # {} /\ LET pl == xr.tz.toks[MinOf(at)].pl IN StripZeros([i \in 1..Len(pl) |-> pl[i].b]) = c.vals[1].h
 \* L3 tokenising the minimal encoding of a token sequence returns the token sequence
-SeqEncodeDecode == c.kind = "seq" => (xr.tz.st = "ok" /\ xr.tz.toks = Toks(c.syms))
+SeqEncodeDecode == c.kind = "seq" => (xr.tz.st = "ok" /\ ~xr.tz.tr /\ xr.tz.toks = Toks(c.syms))
 \* L4 the tokeniser never has to interpret payload bytes in any emitted case
 Aligned == xr.tz.st # "opaque"
 \* L5 output scripts: at most one template matches (first-match order is immaterial), and the procedure's answer is the
@@ -460,7 +481,7 @@ Case ==
   ELSE IF c.kind = "seq" THEN
        [kind |-> "seq", mode |-> c.mode, syms |-> c.syms, name |-> xr.r.t.name, class |-> xr.class, bind |-> xr.r.bind,
         amb |-> SetSeq(xr.r.amb), inner |-> InnerJ(xr.inner)]
-  ELSE [kind |-> "bytes", mode |-> c.mode, bs |-> c.bs, st |-> xr.tz.st, toks |-> [i \in 1..Len(xr.tz.toks) |-> TokJ(xr.tz.toks[i])],
+  ELSE [kind |-> "bytes", mode |-> c.mode, bs |-> c.bs, st |-> xr.tz.st, tr |-> xr.tz.tr, toks |-> [i \in 1..Len(xr.tz.toks) |-> TokJ(xr.tz.toks[i])],
         name |-> xr.r.t.name, class |-> xr.class, bind |-> xr.r.bind, amb |-> SetSeq(xr.r.amb)]
 Emit == EMIT => PrintT(<<"CASE", ToJson(Case)>>)
 =============================================================================
